@@ -320,6 +320,7 @@ impl DepthFirstSearch {
                         // Solutions are collected for the root goal only: a proof of a
                         // sub-goal is not a solution of the query
                         if depth > 0 {
+                            facts.commit_undo_frame();
                             return true; // keep changes
                         }
 
@@ -331,6 +332,7 @@ impl DepthFirstSearch {
 
                         // If we only want one solution OR we've found enough, stop searching
                         if self.max_solutions == 1 || self.solutions.len() >= self.max_solutions {
+                            facts.commit_undo_frame();
                             return true; // keep changes
                         }
 
@@ -352,6 +354,7 @@ impl DepthFirstSearch {
 
                                     // Sub-goal proofs are not solutions of the query (see above)
                                     if depth > 0 {
+                                        facts.commit_undo_frame();
                                         return true; // keep changes
                                     }
 
@@ -365,6 +368,7 @@ impl DepthFirstSearch {
                                     if self.max_solutions == 1
                                         || self.solutions.len() >= self.max_solutions
                                     {
+                                        facts.commit_undo_frame();
                                         return true; // keep changes
                                     }
 
